@@ -206,6 +206,17 @@ def body(env, cfg):
         R = Curve([F(0)] * 3 + [F(1)] * 3, [s0, F(4, 3) * s0, 2 * s0], [F(1), F(3, 2), F(2)])   # s0 * (1+u)^2 / (1+u)
         env.holds("a polynomial and a genuinely rational description of the same function are equal, both orders",
                   bool(L == R) and bool(R == L) and not bool(L != R) and not bool(R != L))
+        # other descriptions of the rational function C1: all weights scaled, a knot inserted, the degree raised
+        C3 = Curve(list(kv.U), P, [3 * w for w in W1])
+        env.holds("scaling all weights by a constant does not change the function: equal, both orders",
+                  bool(C1 == C3) and bool(C3 == C1) and not bool(C1 != C3))
+        C4 = _copy.deepcopy(C1)
+        C4.knot_insert([F(1, 2)])
+        env.holds("a rational curve equals its refined copy, both orders", bool(C1 == C4) and bool(C4 == C1) and not bool(C4 != C1))
+        C5 = _copy.deepcopy(C1)
+        C5.degree_increase(1)
+        env.holds("a rational curve equals its elevated copy, both orders", bool(C1 == C5) and bool(C5 == C1) and not bool(C5 != C1))
+        env.holds("refined / elevated copies of a different rational function stay different", not bool(C4 == C2) and not bool(C2 == C5))
         kmode.unchanged(env, C1, s1, "== operand")
         kmode.unchanged(env, C2, s2, "== operand")
         return
